@@ -3,6 +3,7 @@ package main
 // Contract stubs for library functions (every one is part of the claims that use it).
 
 import (
+	"reflect"
 	"path"
 	"fmt"
 	"go/types"
@@ -864,5 +865,24 @@ func init() {
 			v = tt.Ite(tt.Eq(tt.UF("http_canon", SString, h[0]), tt.UF("http_canon", SString, k)), h[1], v)
 		}
 		return v
+	})
+}
+
+func init() {
+	vx("FilesRemoved", func(ex *Exec, fr *Frame, a []Value, s ssa.Instruction) Value { return ex.tt.BV(uint64(len(ex.W.removed)), 64) })
+	vx("FileRemoved", func(ex *Exec, fr *Frame, a []Value, s ssa.Instruction) Value { return ex.W.removed[ex.concreteInt(a[0], "index")] })
+	vx("TablesDropped", func(ex *Exec, fr *Frame, a []Value, s ssa.Instruction) Value { return ex.tt.BV(uint64(ex.W.tablesDropped), 64) })
+	vx("DBClosed", func(ex *Exec, fr *Frame, a []Value, s ssa.Instruction) Value { return ex.tt.BV(uint64(ex.W.dbClosed), 64) })
+	// the struct tag of a field of the sample pointer's struct type (configuration defaults live in tags)
+	vx("FieldTag", func(ex *Exec, fr *Frame, a []Value, s ssa.Instruction) Value {
+		st := a[0].(*IfaceV).typ.Underlying().(*types.Pointer).Elem().Underlying().(*types.Struct)
+		name := ex.str(a[1], "field name")
+		key := ex.str(a[2], "tag key")
+		for i := 0; i < st.NumFields(); i++ {
+			if st.Field(i).Name() == name {
+				return ex.tt.Str(reflect.StructTag(st.Tag(i)).Get(key))
+			}
+		}
+		panic(ex.unsupported("FieldTag: no field %s", name))
 	})
 }
